@@ -117,3 +117,39 @@ Proof.
   - cbn. repeat constructor; cbn; intuition discriminate.
   - intros p [<-|[<-|[]]]; reflexivity.
 Qed.
+
+(** Link to the implementation: when the correspondence check succeeds on a case whose history
+    only loads checkpoints of the shape SaveCheckpoint writes, every result list OBSERVED on the
+    real vm.PageTable (each repetition in a fresh table) agrees with the map
+    (process, vaddr) -> page threaded by [spec_step]. *)
+From Akita Require Import C26.Exec C26.Link.
+
+Lemma nodupN_NoDup l : nodupN l = true -> NoDup l.
+Proof.
+  induction l as [|x r IH]; cbn [nodupN]; intro H; [constructor|].
+  apply andb_true_iff in H. destruct H as [H1 H2]. constructor; [|apply IH; exact H2].
+  intro Hin. apply negb_true_iff in H1.
+  assert (existsb (N.eqb x) r = true) by (apply existsb_exists; exists x; split; [exact Hin|apply N.eqb_refl]).
+  congruence.
+Qed.
+
+Lemma dto_wf_ok d : dto_wf d = true -> dto_ok d.
+Proof.
+  unfold dto_wf. intro H. apply andb_true_iff in H. destruct H as [_ H]. rewrite forallb_forall in H.
+  intros pid ps Hin. specialize (H _ Hin). cbn [fst snd] in H. apply andb_true_iff in H. destruct H as [H1 H2].
+  split; [apply nodupN_NoDup; exact H1|]. rewrite forallb_forall in H2. intros p Hp. specialize (H2 p Hp). lia.
+Qed.
+
+Theorem c26_model_agreement_implies_property : forall c,
+  Exec.hist_ok (c_ops c) = true -> check_case c = true ->
+  forall o, In o (c_obs c) -> Forall2 res_ok o (spec_run (c_log2 c) (fun _ _ => None) (c_ops c)).
+Proof.
+  intros c Hh Hc o Hin. rewrite (check_case_obs c Hc o Hin). unfold model_results.
+  pose proof (c26_refines_map (c_log2 c) (map (fun x => (id_oracle, x)) (c_ops c))) as R.
+  rewrite map_map in R. cbn [snd] in R. rewrite map_id in R. apply R.
+  unfold Exec.hist_ok in Hh. rewrite forallb_forall in Hh.
+  apply Forall_forall. intros [o' x] Hx. apply in_map_iff in Hx. destruct Hx as [y [Hy Hiny]]. inversion Hy; subst.
+  cbn [fst snd]. split; [apply id_oracle_valid|]. specialize (Hh _ Hiny).
+  destruct x; cbn [op_ok]; try exact I. apply dto_wf_ok. exact Hh.
+Qed.
+Print Assumptions c26_model_agreement_implies_property.
